@@ -48,3 +48,21 @@ package sharediterator
 //@     after call storage.RelationshipTupleReader.ReadStartingWithUser args _, _, a_store, a_filter, a_opts returning it, e : innerCalled = true ; innerIt = it ; innerErr = e ; innerStore = a_store ; innerFilter = a_filter ; innerOpts = a_opts
 //@     before call (*sync.Map).* | sharediterator.newSharedIterator | storage.Read*Key | (*sharediterator.sharedIterator).* : assert options.Consistency.Preference != openfgav1.ConsistencyPreference_HIGHER_CONSISTENCY
 
+
+// ------------------------------------------------------------------ C23: the shared fetch
+// the batch every consumer depends on is read with a context of its own (never a consumer's: a consumer that is
+// cancelled or times out must not poison the shared sequence), and the new shared state is the old items followed by
+// exactly the items read, with the read error recorded (an earlier error is kept)
+//@ func (*sharedIterator).fetchMore(s)
+//@   property C23 C09
+//@   option nosafety
+//@   monitor batch
+//@     ghost bgMade = false
+//@     ghost bg iface = nil
+//@     ghost cur *sharediterator.iteratorState = nil
+//@     ghost loaded = false
+//@     after call context.Background returning c : bg = c ; bgMade = true
+//@     before call (*sharediterator.iteratorReader*).Read args _, cx, b : assert bgMade && cx == bg
+//@     after call (*atomic.Pointer*).Load returning st : cur = st ; loaded = true
+//@     before call (*atomic.Pointer*).Store args _, ns : assert loaded && ns != nil && len(ns.items) == len(cur.items) + read && (e != nil ==> ns.err == e) && (e == nil ==> ns.err == cur.err)
+//@     before call (*atomic.Pointer*).Store args _, ns : assert forall j int :: 0 <= j && j < len(cur.items) ==> ns.items[j] == cur.items[j]
